@@ -190,9 +190,14 @@ StepResult(e, m1, rg1) ==
                       \o ReadClausesS(hp, m1, e, IF lp = <<>> /\ e.path = <<>> /\ e.route # "ctor" /\ Skel(o.t, mb, o.a) # Skel(o.t, m0, o.a) THEN {<<e.b, o.a>>} ELSE {}),
              hp |-> hp]
     [] e.op = "err" ->
-         LET bad == {o \in heap : Touched(mem, m1, e, o) /\ ObjClause(m1, o) # ""} IN
+         LET bad == {o \in heap : Touched(mem, m1, e, o) /\ ObjClause(m1, o) # ""}
+             \* what the refused (or wrongly accepted) operation left behind is no longer a well-formed object: the format / nesting
+             \* clause is named as well (it belongs to the properties about the format and the extents, not only to C11)
+             wfs == {WF(o.t, m1[o.b], o.a) : o \in {p \in heap : Touched(mem, m1, e, p)}} \ {""}
+         IN
          [cl |-> NonEmpty(<<IF e.exc = "" THEN "err:not-raised" ELSE "",
-                            IF bad # {} THEN "err:value-of-existing-object-changed" ELSE "">>) \o ReadClauses(heap, m1, e),
+                            IF bad # {} THEN "err:value-of-existing-object-changed" ELSE "",
+                            IF wfs # {} THEN CHOOSE x \in wfs : TRUE ELSE "">>) \o ReadClauses(heap, m1, e),
           hp |-> heap]
 
 (* ------------------------------ pickle (C20) ------------------------------ *)
